@@ -22,6 +22,13 @@ def main(tier, seed):
     synrun.token_suite(chk, oracle, sp, jobs, props, B['tokens'], B['ctx'])
     synrun.token_suite(chk, oracle, sp, jobs, props, B['raw'], 0, lo='WHITESPACE', hi='ERROR', raw=True)
     synrun.deep_suite(chk, oracle, sp, jobs, props, 1, 3)
+    # trivia next to names: doc comments / comments / whitespace before labels, parameters, expressions (raw kinds incl. trivia)
+    from mirsym import explore
+    from . import c01
+    for name, prefix in [c for c in c01.RAW_CONTEXTS if c[0] in ('in-variant-fields', 'in-block', 'in-type', 'in-case')] + [('in-params', ['FN_KW', 'IDENT', 'L_PAREN'])]:
+        res, complete = explore.explore(c01.raw_ctx_factory, (2, tuple(prefix), ()), jobs=jobs)
+        chk.add_run('raw ctx %s +2 (names are single tokens)' % name, res, complete, {'symbolic_raw_tokens': 2, 'alphabet': 'WHITESPACE..=ERROR (75 kinds)', 'prefix': prefix}, nontrivial_classes=lambda c: c != 'ok-clean')
+        synrun.confirm_violations(chk, res, oracle, sp, 'raw context %s' % name, props, raw=True)
     synrun.lexer_suite(chk, oracle, sp, jobs, props + ['C01/C20', 'C01: token'], B['lex'], B['pipeline'])
     oracle.close()
     syn.W.cleanup()
